@@ -5,6 +5,7 @@
 //        chaos=0..3 hold=NS hang_s=SEC
 #define VERIF_MAIN_TU
 #include <pthread.h>
+#include <signal.h>
 
 #include <algorithm>
 #include <thread>
@@ -102,6 +103,8 @@ class Engine
 
   Box boxes_[kMaxLocks];
   std::atomic<uint64_t> fifo_pairs_{0};
+  // the grant currently held by this thread on box index i was obtained through a conversion
+  static inline thread_local bool conv_tl_[kMaxLocks] = {};
   static inline thread_local uint64_t own_checks_tl_ = 0;
 
   /*---------------------------------------------------------------- C11 ------*/
@@ -399,7 +402,8 @@ class Engine
                   " while an SIX grant was held",
                   g_cls_name, b.index, t_mon.tid, v0, v1));
     }
-    UnregGrant(b, kSIX);
+    UnregGrant(b, kSIX, conv_tl_[b.index]);
+    conv_tl_[b.index] = false;
     Release(g, r, b.index, op);
   }
 
@@ -419,7 +423,8 @@ class Engine
       }
     }
     XDone(b, idx, nv);
-    UnregGrant(b, kX);
+    UnregGrant(b, kX, conv_tl_[b.index]);
+    conv_tl_[b.index] = false;
     Release(g, r, b.index, op);
     XReleased(b);
   }
@@ -431,7 +436,8 @@ class Engine
     const auto nv = PickNewVersion(g, r, old_ver);
     written = PayRead(b.pay[0]);
     XDone(b, idx, nv);
-    BeginDowngrade(b);
+    BeginDowngrade(b, conv_tl_[b.index]);
+    conv_tl_[b.index] = true;
     SIXG six;
     {
       LibCall lc{kPhConvert, b.index, op};
@@ -458,7 +464,8 @@ class Engine
     }
     CheckOwn(x, true, "result of UpgradeToX");
     CheckOwn(g, false, "SIXGuard consumed by UpgradeToX");
-    EndUpgrade(b);
+    EndUpgrade(b, conv_tl_[b.index]);
+    conv_tl_[b.index] = true;
     const auto now = ReadPayloadConsistent(b, kX, "upgraded X holder");
     if (now != seen_under_six) {
       Violate("C10", Fmt("%s:value-read-under-SIX-changed-before-UpgradeToX-returned", g_cls_name),
@@ -498,7 +505,8 @@ class Engine
                   g_cls_name, b.index, t_mon.tid, written, now));
     }
     CheckVersionUnderSharedHold(b, "SIX(downgraded)");
-    UnregGrant(b, kSIX);
+    UnregGrant(b, kSIX, conv_tl_[b.index]);
+    conv_tl_[b.index] = false;
     Release(six, r, b.index, op);
   }
 
@@ -534,7 +542,8 @@ class Engine
                 Fmt("class=%s lock=%d wrote %" PRIu64 " sees %" PRIu64, g_cls_name, b.index,
                     written, now));
       }
-      UnregGrant(b, kSIX);
+      UnregGrant(b, kSIX, conv_tl_[b.index]);
+      conv_tl_[b.index] = false;
       Release(six2, r, b.index, op);
     }
   }
@@ -991,6 +1000,38 @@ PointCb(int id, const void *obj)
 }
 
 /*------------------------------------------------------------------------------
+ * crash handler: a fault inside a library call is reported as a violation
+ *----------------------------------------------------------------------------*/
+void
+CrashHandler(int sig, siginfo_t *si, void *)
+{
+  static std::atomic<int> once{0};
+  if (once.exchange(1) != 0) _exit(4);
+  const int tid = t_mon.tid;
+  uint32_t st = 0;
+  if (tid >= 0 && tid < kMaxThreads) st = g_prog[tid].state.load(kRlx);
+  const auto ph = st >> 16;
+  const bool mcs = strcmp(g_cls_name, "mcs") == 0;
+  // a fault in MCSLock code is an access through an invalid queue-node pointer (C12); the other classes only
+  // dereference the lock pointer stored in a guard (C07)
+  const char *prop = (ph == kPhClient) ? "HARNESS" : (mcs ? "C12" : "C07");
+  char buf[1024];
+  const int n = snprintf(buf, sizeof buf,
+                         "RESULT {\"status\":\"crash\",\"counters\":{\"crashes\":1,\"evaluations\":%" PRIu64 ",\"ops_total\":%" PRIu64
+                         "},\"strings\":{},\"chaos\":{},\"samples\":[],\"signatures\":[],\"violations\":[{\"prop\":\"%s\","
+                         "\"key\":\"%s:invalid-memory-access-inside-library-call:%s\",\"detail\":\"class=%s profile=%s signal %d at address %p "
+                         "while thread %d was in phase '%s' of op '%s' on lock %u\",\"count\":1}],\"observations\":{}}\n",
+                         g_ops_done.load(kRlx), g_ops_done.load(kRlx), prop, g_cls_name, ph < 5 ? kPhaseNames[ph] : "?", g_cls_name,
+                         g_cfg.profile.c_str(), sig, si ? si->si_addr : nullptr, tid, ph < 5 ? kPhaseNames[ph] : "?",
+                         (st & 0xFF) < kOpCount ? kOpNames[st & 0xFF] : "?", (st >> 8) & 0xFF);
+  if (n > 0) {
+    const auto w = write(1, buf, static_cast<size_t>(n));
+    (void)w;
+  }
+  _exit(0);
+}
+
+/*------------------------------------------------------------------------------
  * profiles
  *----------------------------------------------------------------------------*/
 void
@@ -1056,6 +1097,16 @@ Run()
   }
   g_pay_range_n = kMaxLocks;
   g_point_cb = &PointCb;
+#if !VERIF_ASAN && !VERIF_TSAN
+  {
+    struct sigaction sa {};
+    sa.sa_sigaction = &CrashHandler;
+    sa.sa_flags = SA_SIGINFO;
+    sigaction(SIGSEGV, &sa, nullptr);
+    sigaction(SIGBUS, &sa, nullptr);
+    sigaction(SIGABRT, &sa, nullptr);
+  }
+#endif
 
   Rng pr;
   pr.Seed(g_cfg.seed ^ 0xC0FFEEULL);
